@@ -4,7 +4,7 @@
    (the Monitor instantiates them with the values regenerated from the source, Gen/GenC17.v);
    [GenC17.sorts_peers] is the regenerated flag "loadPeerList sorts newPeers": the theorems are about the
    model instance with that flag, so removing the sort from the source breaks these proofs. *)
-From Refinery Require Import Lib.Base Model.Shard Proofs.Shard Gen.GenC17.
+From Refinery Require Import Lib.Base Model.Shard Proofs.Shard Proofs.ShardMax Gen.GenC17.
 From Coq Require Import Sorting.Sorted Sorting.Permutation.
 
 (* (1) Every node runs the same binary, i.e. the same sort.Slice function [srt] (ANY function):
@@ -87,6 +87,17 @@ Theorem C17_source_shape :
   route_forwards_iff_not_mine = true.
 Proof. exact source_shape. Qed.
 Print Assumptions C17_source_shape.
+
+(* (6) What the owner IS (with the comparison found in the source, [which_strict] = `h > maxHash`): the peer that holds
+   a partition whose trace hash H tid uhash is positive and maximal over all partitions, or peers[0] when every trace
+   hash is 0. The choice depends on the partitions only through (uhash, address), which is why the order of the peer
+   list cannot matter. *)
+Theorem C17_owner_is_argmax : forall H tid lp hs,
+  (owner H which_strict lp hs tid = nth 0 lp EmptyString /\ Forall (fun p => hval H tid p = 0%N) hs) \/
+  (exists p, In p hs /\ owner H which_strict lp hs tid = nth (pix p) lp EmptyString /\ (0 < hval H tid p)%N /\
+             Forall (fun q => (hval H tid q <= hval H tid p)%N) hs).
+Proof. exact owner_is_argmax. Qed.
+Print Assumptions C17_owner_is_argmax.
 
 (* Non-vacuity: a concrete hash, three peers given in two orders plus a duplicate-free cluster of three
    nodes with different views; hypotheses hold, the owner is "n3", the span entering at "n1" makes one hop. *)
